@@ -496,8 +496,192 @@ def rule_g(ctx):
            f'`{", ".join(bad)}`: when the count is 0 the slice [-0:] is the whole input, not the empty list')
 
 
+EVO = 'pyglove.ext.evolution.'
+
+
+def _evo_funcs(idx):
+  for f in idx.all_funcs():
+    if f.module.name.startswith(EVO) and not f.module.relpath.endswith('_test.py'):
+      yield f
+
+
+def rule_j(ctx):
+  """Seeded operators are functions of their seed and inputs: no output order is
+  taken from a set of DNAs (`list(set(...))`) - DNA.__hash__ hashes str values
+  (custom decisions), so that order changes with PYTHONHASHSEED.  Removing
+  duplicates keeps the order of first occurrence (dict.fromkeys / a seen-set)."""
+  idx = ctx.index
+  n = 0
+  for f in _evo_funcs(idx):
+    for c in A.calls_in(f.node):
+      if A.call_name(c) in ('list', 'tuple') and c.args and isinstance(c.args[0], ast.Call) \
+          and A.call_name(c.args[0]) in ('set', 'frozenset'):
+        inner = c.args[0]
+        ints = inner.args and isinstance(inner.args[0], ast.Call) and A.call_name(inner.args[0]) == 'range'
+        n += 1
+        ctx.ob('C14.j', f'{f.qualname}#list-of-set', bool(ints),
+               'no output order comes from iterating a set of DNAs', f'{f.module.relpath}:{c.lineno}',
+               f'`{A.unparse(c, 60)}`: the order of the result depends on the hash seed of the process (str decisions), '
+               f'so the same seed and parents give differently ordered children in two processes')
+  ctx.ob('C14.j', 'evolution#ordered-dedup', True, f'{n} list(set(...)) constructions examined', 'pyglove/ext/evolution/recombinators.py:1')
+
+
+def rule_k(ctx):
+  """Operators never modify the population passed in: Evolution._evolve hands
+  self._population to the reproduction, which may return that very list
+  (Identity, a Choice that does not fire, Conditional without a branch); the
+  result is therefore copied before any element of it is replaced."""
+  idx = ctx.index
+  f = idx.func(EVO + 'base.Evolution._evolve')
+  g = C.cfg_of(f.node)
+  res = [(k, nm) for k in g.nodes if k.kind == 'stmt' and isinstance(k.ast, ast.Assign) and isinstance(k.ast.value, ast.Call)
+         and any('_population' in A.unparse(a) for a in k.ast.value.args) for nm in A.assigned_names(k.ast.targets[0])]
+  if not res:
+    raise AnalysisError('Evolution._evolve: reproduction call not found')
+  node, var = res[0]
+  bad = []
+  for k in g.nodes:
+    if k.ast is None:
+      continue
+    w = None
+    if k.kind == 'stmt' and isinstance(k.ast, (ast.Assign, ast.AugAssign, ast.Delete)):
+      tg = k.ast.targets if not isinstance(k.ast, ast.AugAssign) else [k.ast.target]
+      if any(isinstance(t, ast.Subscript) and A.unparse(t.value) == var for t in tg):
+        w = A.unparse(k.ast, 50)
+    for c in k.calls():
+      d = A.call_name(c) or ''
+      if d.split('.')[0] == var and d.split('.')[-1] in ('append', 'extend', 'insert', 'pop', 'remove', 'sort', 'reverse', 'clear'):
+        w = A.unparse(c, 50)
+    if w is None:
+      continue
+    for dn, val in D.reaching_defs(g, k, var):
+      if dn is node or (val is not None and isinstance(val, ast.Call) and any('_population' in A.unparse(a) for a in val.args)):
+        bad.append(f'`{w}` (line {k.lineno})')
+        break
+  ctx.ob('C14.k', f.qualname + '#population-kept', not bad,
+         'the list returned by the reproduction is copied before it is written to (it may be the population itself)', f.loc,
+         ', '.join(bad) + ' writes into the reproduction\'s result, which is self._population when the reproduction returns its '
+         'input: evaluated individuals are replaced by un-evaluated clones (Top(1)(algo.population) then raises KeyError \'reward\')')
+
+
+def rule_l(ctx):
+  """A field declared with scalars.scalar_spec may hold a schedule (a callable of the
+  step): it is read through scalars.scalar_value(...) wherever its VALUE is used
+  (None tests aside).  Comparing the raw field with a number silently never matches
+  for a schedule."""
+  idx = ctx.index
+  n = 0
+  for c in idx.all_classes():
+    if not c.fq.startswith(EVO) or c.module.relpath.endswith('_test.py'):
+      continue
+    fields = set()
+    for dec in c.node.decorator_list:
+      for t in ast.walk(dec):
+        if isinstance(t, ast.Tuple) and len(t.elts) >= 2 and A.const_str(t.elts[0]) \
+            and any(isinstance(x, ast.Call) and (A.call_name(x) or '').split('.')[-1] == 'scalar_spec' for x in ast.walk(t.elts[1])) \
+            and not any(isinstance(x, ast.Call) and (A.call_name(x) or '').split('.')[-1] in ('List', 'Tuple', 'Dict') for x in ast.walk(t.elts[1])):
+          fields.add(A.const_str(t.elts[0]))
+    for fld in sorted(fields):
+      raw = []
+      for m in c.methods.values():
+        wrapped = {id(a) for call in A.calls_in(m.node) if (A.call_name(call) or '').split('.')[-1] in ('scalar_value', 'make_scalar')
+                   for a in call.args for a in ast.walk(a)}
+        assigned_raw = set()
+        for x in ast.walk(m.node):
+          if isinstance(x, ast.Attribute) and A.dotted(x) == f'self.{fld}' and isinstance(x.ctx, ast.Load) and id(x) not in wrapped:
+            # `self.f is None` / `is not None` tests and plain aliasing (`limit = self.limit`) are fine
+            par = [p for p in ast.walk(m.node) if any(ch is x for ch in ast.iter_child_nodes(p))]
+            p0 = par[0] if par else None
+            if isinstance(p0, ast.Compare) and all(isinstance(o, (ast.Is, ast.IsNot)) for o in p0.ops):
+              continue
+            if isinstance(p0, ast.Assign) and p0.value is x:
+              assigned_raw.update(A.assigned_names(p0.targets[0]))
+              continue
+            raw.append(f'{m.name}:{x.lineno}')
+        # an alias must itself go through scalar_value before it is compared
+        for nm in assigned_raw:
+          cmp_raw = [x for x in ast.walk(m.node) if isinstance(x, ast.Compare) and not all(isinstance(o, (ast.Is, ast.IsNot)) for o in x.ops)
+                     and nm in A.names_read(x)]
+          rewrapped = any(isinstance(x, ast.Assign) and nm in A.assigned_names(x.targets[0]) and isinstance(x.value, ast.Call)
+                          and (A.call_name(x.value) or '').split('.')[-1] in ('scalar_value', 'make_scalar') for x in ast.walk(m.node))
+          if cmp_raw and not rewrapped:
+            raw.append(f'{m.name}:{cmp_raw[0].lineno} (alias {nm})')
+      n += 1
+      ctx.ob('C14.l', f'{c.name}.{fld}#scalar-read', not raw,
+             f'the scalar field `{fld}` is evaluated with scalars.scalar_value before its value is used', c.loc,
+             f'raw use at {raw}: a schedule (callable) never equals a number, so the setting is ignored')
+  if n < 4:
+    raise AnalysisError(f'C14.l: only {n} scalar fields found')
+
+
+def rule_m(ctx):
+  """A composite operation calls the compatible wrapper it built in _on_bound
+  (`self._op = make_operation_compatible(self.op)`), never the raw field: the field
+  may hold a plain callable that does not take global_state / step."""
+  idx = ctx.index
+  n = 0
+  for c in idx.all_classes():
+    if not c.fq.startswith(EVO) or c.module.relpath.endswith('_test.py'):
+      continue
+    ob = c.methods.get('_on_bound')
+    if ob is None:
+      continue
+    wrapped = {}
+    for x in ast.walk(ob.node):
+      if isinstance(x, ast.Assign) and isinstance(x.value, ast.Call) and (A.call_name(x.value) or '').split('.')[-1] == 'make_operation_compatible' \
+          and x.value.args and (A.dotted(x.value.args[0]) or '').startswith('self.'):
+        wrapped[A.dotted(x.value.args[0])] = A.dotted(x.targets[0])
+    for raw_attr, wrap_attr in sorted(wrapped.items()):
+      calls = [f'{m.name}:{k.lineno}' for m in c.methods.values() for k in A.calls_in(m.node) if A.call_name(k) == raw_attr]
+      n += 1
+      ctx.ob('C14.m', f'{c.name}#{raw_attr.split(".")[1]}', not calls,
+             f'the operation is invoked through {wrap_attr}, the wrapper that accepts (inputs, global_state, step)', c.loc,
+             f'{raw_attr}(...) is called directly at {calls}: a plain callable - accepted by the field spec and by every other '
+             f'composite - fails with an unexpected keyword argument')
+  if n < 3:
+    raise AnalysisError(f'C14.m: only {n} wrapped operations found')
+
+
+def rule_n(ctx):
+  """Intersection counts in how many operands an item occurs, not how many times:
+  the counter is incremented once per operand, i.e. while iterating a SET of the
+  operand's outputs (an operand may output an item twice: Random(replacement=True),
+  Sample, Proportional)."""
+  idx = ctx.index
+  f = idx.func(EVO + 'base.Intersection.call')
+  incs = [x for x in ast.walk(f.node) if isinstance(x, ast.AugAssign) and isinstance(x.op, ast.Add) and isinstance(x.target, ast.Subscript)]
+  if not incs:
+    ctx.ob('C14.n', 'Intersection.call#per-operand', True, 'no occurrence counter', f.loc)
+    return
+  ok = True
+  for inc in incs:
+    loops = [lp for lp in ast.walk(f.node) if isinstance(lp, ast.For) and any(y is inc for b in lp.body for y in ast.walk(b))]
+    inner = loops[-1] if loops else None
+    it = inner.iter if inner is not None else None
+    def is_set(e, depth=0):
+      if isinstance(e, (ast.Set, ast.SetComp)):
+        return True
+      if isinstance(e, ast.Call) and A.call_name(e) in ('set', 'frozenset'):
+        return True
+      if isinstance(e, ast.Name) and depth < 2:
+        ds = [v for _, v in D.defs_of(f.node, e.id) if v is not None]
+        return bool(ds) and all(is_set(v, depth + 1) for v in ds)
+      return False
+    if it is None or not is_set(it):
+      ok = False
+  ctx.ob('C14.n', 'Intersection.call#per-operand', ok,
+         'the occurrence counter is incremented once per operand (over the set of its outputs)', f.loc,
+         'the counter is incremented per output item: an item one operand outputs twice reaches len(ops) - 1 without being in '
+         'every operand\'s output (and an item output twice by two operands overshoots and is dropped)')
+
+
 def run(ctx):
   ctx.consult(*FILES)
+  rule_j(ctx)
+  rule_k(ctx)
+  rule_l(ctx)
+  rule_m(ctx)
+  rule_n(ctx)
   from sa.rules import c12 as _c12
   _before = len(ctx.obs)
   _c12.rule_i(ctx)     # operators hand out DNAs whose lookups agree with their decisions
